@@ -374,8 +374,8 @@ func (s cmap6or10) Lookup(r rune) (GID, bool) {
 	if r < s.firstCode {
 		return 0, false
 	}
-	c := int(r - s.firstCode)
-	if c >= len(s.entries) {
+	c := int(r) - int(s.firstCode) // firstCode is negative for an (invalid) start code above 0x7FFFFFFF
+	if c < 0 || c >= len(s.entries) {
 		return 0, false
 	}
 	return GID(s.entries[c]), true
